@@ -46,9 +46,8 @@ def run_and_check(ctx, prop, cases, label):
     if not obs:
         raise vf.Inconclusive("conc harness produced nothing for " + label)
     problems = [o for o in obs if o["problem"]]
-    if len(problems) > max(3, len(obs) // 50):
-        raise vf.Inconclusive("harness could not follow %d of %d schedules, e.g. %s" %
-                              (len(problems), len(obs), problems[0]["problem"]))
+    if len(obs) < len(cases):
+        ctx.cov["notes"].append({"harness_stopped_early_after_many_divergent_runs": len(cases) - len(obs)})
     tr = ctx.tlc("ConcTrace", "ConcTrace.cfg", workers=1, files={"obs.ndjson": opath}, timeout=3000)
     if not any(l.startswith('"CHECKED %d"' % len(obs)) for l in tr.out.splitlines()):
         raise vf.Inconclusive("trace check did not cover all %d runs:\n%s" % (len(obs), tr.out[-3000:]))
@@ -75,6 +74,9 @@ def run_and_check(ctx, prop, cases, label):
             ctx.violation(sig, "%s run %d: clause '%s' false on the real code's run" % (o["mode"], o["n"], name), o)
     if other:
         ctx.cov["notes"].append({"clauses_of_other_properties_failing_here": other})
+    if len(problems) > max(3, len(obs) // 50) and not ctx.violations:
+        raise vf.Inconclusive("%d of %d runs could not be completed, e.g. %s" %
+                              (len(problems), len(obs), problems[0]["problem"]))
     for o in obs:
         if o["problem"]:
             continue
